@@ -36,6 +36,20 @@ type c10BudCase struct {
 	AnnoR     int64  `json:"anno_reserved_u"`      // node.koordinator.sh/reservation (resources.cpu, or |reservedCPUs| when AnnoCPUs)
 	AnnoCPUs  bool   `json:"anno_by_reserved_cpus"`
 	NoMetrics bool   `json:"hostapp_without_metric"` // an additional host app that has no metric (must be ignored)
+	// BE host applications that do NOT run inside the kube besteffort hierarchy (not throttled by BE suppression => deducted)
+	HostBENil       int64  `json:"be_hostapp_no_cgrouppath_usage_u"` // qos=BE, cgroupPath absent: koordlet's default host dir under the cgroup root
+	HostBEOther     int64  `json:"be_hostapp_other_base_usage_u"`    // qos=BE, explicit cgroupPath with base HostBEOtherBase
+	HostBEOtherBase string `json:"be_hostapp_other_base"`            // CgroupRoot | Kubepods | KubepodsBurstable; "" = no such app
+}
+
+// c10HostAppThrottled is the harness' reading of "host applications" in the statement: a host application's usage is
+// deducted from the BE budget unless the application is itself best-effort AND runs inside the kube besteffort cgroup
+// hierarchy, the only place the suppression (cpuset / cfs quota of kubepods besteffort) throttles. From the NodeSLO
+// API: spec.hostApplications[].cgroupPath.base names the hierarchy (CgroupRoot, Kubepods, KubepodsBurstable,
+// KubepodsBesteffort); without cgroupPath the application runs in koordlet's default host directory directly under the
+// cgroup root, i.e. outside kubepods besteffort.
+func c10HostAppThrottled(qos string, hasCgroupPath bool, base string) bool {
+	return qos == "BE" && hasCgroupPath && base == string(slov1alpha1.CgroupBaseTypeKubeBesteffort)
 }
 
 const c10Band = int64(3000) // micro-CPUs: three float->milli truncations, each raises the budget by < 1 milli
@@ -93,13 +107,19 @@ func c10BudRun(f *c10BudFixture, c *c10BudCase) (milli int64, ps string) {
 		string(f.pods[0].Pod.UID): c10f(c.LS), string(f.pods[1].Pod.UID): c10f(c.LSR), string(f.pods[2].Pod.UID): c10f(c.NoLabel),
 		string(f.pods[3].Pod.UID): c10f(c.BE), string(f.pods[4].Pod.UID): c10f(c.KubeBE),
 	}
-	hostMetrics := map[string]float64{"host-ls": c10f(c.HostLS), "host-be": c10f(c.HostBE)}
-	hostApps := f.hostApps[:2]
+	hostMetrics := map[string]float64{"host-ls": c10f(c.HostLS), "host-be": c10f(c.HostBE), "host-be-nil": c10f(c.HostBENil)}
+	hostApps := make([]slov1alpha1.HostApplicationSpec, 0, 5)
+	hostApps = append(hostApps, f.hostApps[0], f.hostApps[1], slov1alpha1.HostApplicationSpec{Name: "host-be-nil", QoS: apiext.QoSBE})
+	if c.HostBEOtherBase != "" {
+		hostApps = append(hostApps, slov1alpha1.HostApplicationSpec{Name: "host-be-other", QoS: apiext.QoSBE,
+			CgroupPath: &slov1alpha1.CgroupPath{Base: slov1alpha1.CgroupBaseType(c.HostBEOtherBase), RelativePath: "host-be-other"}})
+		hostMetrics["host-be-other"] = c10f(c.HostBEOther)
+	}
 	if c.NoMetrics {
-		hostApps = f.hostApps
+		hostApps = append(hostApps, f.hostApps[2])
 	}
 	// what the node metric reports: everything that runs on the node (exact in micro-CPUs, then one conversion)
-	nodeUsage := c10f(c.Sys + c.LS + c.LSR + c.NoLabel + c.BE + c.KubeBE + c.HostLS + c.HostBE)
+	nodeUsage := c10f(c.Sys + c.LS + c.LSR + c.NoLabel + c.BE + c.KubeBE + c.HostLS + c.HostBE + c.HostBENil + c.HostBEOther)
 	r := &CPUSuppress{}
 	ps = c10Guard(func() {
 		q := r.calculateBESuppressCPU(node, nodeUsage, podMetrics, f.pods, hostApps, hostMetrics, c.Thr, c.Min)
@@ -123,7 +143,17 @@ func c10BudExact(c *c10BudCase) int64 {
 	if reserved > sys {
 		sys = reserved
 	}
-	e := capU*c.Thr/100 - c.LS - c.LSR - c.NoLabel - c.HostLS - sys
+	e := capU*c.Thr/100 - c.LS - c.LSR - c.NoLabel - sys
+	// host applications: (qos, has cgroupPath, base, usage)
+	for _, h := range []struct {
+		qos, base string
+		path      bool
+		u         int64
+	}{{"LS", "", false, c.HostLS}, {"BE", string(slov1alpha1.CgroupBaseTypeKubeBesteffort), true, c.HostBE}, {"BE", "", false, c.HostBENil}, {"BE", c.HostBEOtherBase, true, c.HostBEOther}} {
+		if !c10HostAppThrottled(h.qos, h.path, h.base) {
+			e -= h.u
+		}
+	}
 	if c.Min != nil {
 		if m := capU * *c.Min / 100; e < m {
 			e = m
@@ -155,17 +185,21 @@ func c10RunBudgetPart(env *mc.Env) {
 	sysV := []int64{-u(1), 0, u(0.5), u(3), over}
 	kubV := []int64{0, u(0.5), u(3)}
 	annoV := []anno{{0, false}, {u(1), false}, {u(2), true}}
+	hbnV := []int64{0, u(0.5)} // BE host app without cgroupPath
+	// BE host app with an explicit base outside kubepods besteffort: index 0 = no such app, else 1 CPU under that base
+	otherBases := []string{"", string(slov1alpha1.CgroupBaseTypeRoot), string(slov1alpha1.CgroupBaseTypeKubeBurstable)}
 	if env.Thorough() {
+		otherBases = []string{"", string(slov1alpha1.CgroupBaseTypeRoot), string(slov1alpha1.CgroupBaseTypeKubepods), string(slov1alpha1.CgroupBaseTypeKubeBurstable)}
 		caps = []int{1, 2, 4, 8, 16}
 		thrs = []int64{0, 1, 65, 100}
-		lsV = []int64{0, 500, u(0.3), u(0.5), u(1), u(1.7), u(3), over} // 500u = half a milli
+		lsV = []int64{0, 500, u(0.3), u(1), u(1.7), over} // 500u = half a milli
 		lsrV = []int64{0, u(0.3), u(1), u(2.25)}
 		hlsV = []int64{0, u(0.5), u(1), over}
 		sysV = []int64{-u(1), 0, u(0.1), u(0.5), u(1), u(3), over}
-		kubV = []int64{0, u(0.5), u(0.7), u(1), u(3)}
+		kubV = []int64{0, u(0.5), u(0.7), u(3)}
 		annoV = []anno{{0, false}, {u(0.5), false}, {u(1), false}, {u(2), true}}
 	}
-	rx := mc.Radix{Dims: []int{len(caps), len(thrs), len(mins), len(lsV), len(lsrV), len(nolV), len(beV), len(hlsV), len(hbeV), len(sysV), len(kubV), len(annoV), 2}}
+	rx := mc.Radix{Dims: []int{len(caps), len(thrs), len(mins), len(lsV), len(lsrV), len(nolV), len(beV), len(hlsV), len(hbeV), len(sysV), len(kubV), len(annoV), 2, len(hbnV), len(otherBases)}}
 	val := func(v int64, n int) int64 {
 		if v == over {
 			return int64(n+4) * 1e6
@@ -174,12 +208,16 @@ func c10RunBudgetPart(env *mc.Env) {
 	}
 	build := func(d []int) *c10BudCase {
 		n := caps[d[0]]
-		return &c10BudCase{N: n, Thr: thrs[d[1]], Min: mins[d[2]], LS: val(lsV[d[3]], n), LSR: lsrV[d[4]], NoLabel: nolV[d[5]], BE: beV[d[6]],
+		c := &c10BudCase{N: n, Thr: thrs[d[1]], Min: mins[d[2]], LS: val(lsV[d[3]], n), LSR: lsrV[d[4]], NoLabel: nolV[d[5]], BE: beV[d[6]],
 			HostLS: val(hlsV[d[7]], n), HostBE: hbeV[d[8]], Sys: val(sysV[d[9]], n), KubeletR: kubV[d[10]], AnnoR: annoV[d[11]].u, AnnoCPUs: annoV[d[11]].cpus,
-			NoMetrics: d[12] == 1, KubeBE: u(0.25) * int64(d[6])}
+			NoMetrics: d[12] == 1, KubeBE: u(0.25) * int64(d[6]), HostBENil: hbnV[d[13]]}
+		if d[14] > 0 {
+			c.HostBEOtherBase, c.HostBEOther = otherBases[d[14]], u(1)
+		}
+		return c
 	}
 	dyadic := func(c *c10BudCase) bool {
-		for _, v := range []int64{c.LS, c.LSR, c.NoLabel, c.BE, c.KubeBE, c.HostLS, c.HostBE, c.Sys, c.KubeletR, c.AnnoR} {
+		for _, v := range []int64{c.LS, c.LSR, c.NoLabel, c.BE, c.KubeBE, c.HostLS, c.HostBE, c.HostBENil, c.HostBEOther, c.Sys, c.KubeletR, c.AnnoR} {
 			if v%125000 != 0 {
 				return false
 			}
@@ -187,8 +225,9 @@ func c10RunBudgetPart(env *mc.Env) {
 		return true
 	}
 	// dimensions that are non-BE consumption, ordered by amount: LS, LSR, unlabelled pod, LS host app, system, kubelet reservation, annotation reservation
-	monoDims := []int{3, 4, 5, 7, 9, 10, 11}
-	monoName := map[int]string{3: "ls-pod-usage", 4: "lsr-pod-usage", 5: "unlabelled-pod-usage", 7: "hostapp-usage", 9: "system-usage", 10: "kubelet-reservation", 11: "annotation-reservation"}
+	monoDims := []int{3, 4, 5, 7, 9, 10, 11, 13, 14}
+	monoName := map[int]string{3: "ls-pod-usage", 4: "lsr-pod-usage", 5: "unlabelled-pod-usage", 7: "hostapp-usage", 9: "system-usage", 10: "kubelet-reservation", 11: "annotation-reservation",
+		13: "be-hostapp-without-cgrouppath-usage", 14: "be-hostapp-outside-besteffort-usage"}
 	// pass 1: run and judge every case, remember its budget; pass 2: neighbour comparison on the remembered budgets
 	const notRun = int32(-1 << 31)
 	vals := make([]int32, rx.Size())
@@ -196,7 +235,7 @@ func c10RunBudgetPart(env *mc.Env) {
 		vals[i] = notRun
 	}
 	done, complete := env.ParallelRangeL(res, rx.Size(), func(l *mc.Local, i int64) {
-		d := rx.Decode(i, make([]int, 0, 13))
+		d := rx.Decode(i, make([]int, 0, 15))
 		c := build(d)
 		if c.KubeletR > int64(c.N)*1e6 { // the kubelet cannot reserve more than the capacity
 			l.Count("skipped_reservation_above_capacity", 1)
@@ -230,6 +269,15 @@ func c10RunBudgetPart(env *mc.Env) {
 		if exact < 0 {
 			l.Count("budget_negative_no_minimum", 1)
 		}
+		if c.HostBENil > 0 {
+			l.Count("be_hostapp_without_cgrouppath_deducted", 1)
+		}
+		if c.HostBEOther > 0 {
+			l.Count("be_hostapp_outside_besteffort_deducted", 1)
+		}
+		if c.HostBE > 0 {
+			l.Count("be_hostapp_in_besteffort_not_deducted", 1)
+		}
 		rsv := c.KubeletR
 		if c.AnnoR > rsv {
 			rsv = c.AnnoR
@@ -255,34 +303,42 @@ func c10RunBudgetPart(env *mc.Env) {
 		if vals[i] == notRun {
 			return
 		}
-		d := rx.Decode(i, make([]int, 0, 13))
+		d := rx.Decode(i, make([]int, 0, 15))
 		var c *c10BudCase
 		for _, k := range monoDims {
-			if d[k]+1 >= rx.Dims[k] {
-				continue
+			// neighbours: the next member of the alphabet; for the "other base" dimension every base against "no such app"
+			lo, hi := d[k]+1, d[k]+1
+			if k == 14 {
+				if d[k] != 0 {
+					continue
+				}
+				hi = rx.Dims[k] - 1
 			}
-			j := i + stride[k]
-			if vals[j] == notRun {
-				continue
-			}
-			if c == nil {
-				c = build(d)
-			}
-			d[k]++
-			c2 := build(d)
-			d[k]--
-			// neighbour monotonicity: raising one non-BE input to the next value of its alphabet never raises the budget
-			tol := int64(0)
-			if !dyadic(c) || !dyadic(c2) {
-				tol = c10Band / 1000 // map-order dependent float summation may move each truncation by one milli
-			}
-			got, got2 := int64(vals[i]), int64(vals[j])
-			l.Count("monotone_neighbour_checked", 1)
-			if got2 < got {
-				l.Count("monotone_strict_decrease", 1)
-			}
-			if got2 > got+tol {
-				res.Violate(mc.Violation{Key: "C10|budget|not-monotone|" + monoName[k], What: fmt.Sprintf("budget grows from %d to %d milli when %s grows; case %+v -> %+v", got, got2, monoName[k], *c, *c2), Replay: c})
+			for nb := lo; nb <= hi && nb < rx.Dims[k]; nb++ {
+				j := i + stride[k]*int64(nb-d[k])
+				if vals[j] == notRun {
+					continue
+				}
+				if c == nil {
+					c = build(d)
+				}
+				save := d[k]
+				d[k] = nb
+				c2 := build(d)
+				d[k] = save
+				// neighbour monotonicity: raising one non-BE input never raises the budget
+				tol := int64(0)
+				if !dyadic(c) || !dyadic(c2) {
+					tol = c10Band / 1000 // map-order dependent float summation may move each truncation by one milli
+				}
+				got, got2 := int64(vals[i]), int64(vals[j])
+				l.Count("monotone_neighbour_checked", 1)
+				if got2 < got {
+					l.Count("monotone_strict_decrease", 1)
+				}
+				if got2 > got+tol {
+					res.Violate(mc.Violation{Key: "C10|budget|not-monotone|" + monoName[k], What: fmt.Sprintf("budget grows from %d to %d milli when %s grows; case %+v -> %+v", got, got2, monoName[k], *c, *c2), Replay: c})
+				}
 			}
 		}
 	})
@@ -296,12 +352,13 @@ func c10RunBudgetPart(env *mc.Env) {
 	if !complete {
 		res.Capped = fmt.Sprintf("time budget hit after %d of %d cases", done, rx.Size())
 	}
-	res.Rule = fmt.Sprintf("every member of capacity%v x threshold%%%v x min%%{nil,0,25} x LS pod usage x LSR pod usage x unlabelled pod usage x BE pod usage x LS host-app usage x BE host-app usage x system usage (incl. negative and > capacity) x kubelet reservation x annotation reservation (resources.cpu / reservedCPUs) x host app without metric{n,y} (usage alphabets in the evidence bounds); every case is non-trivial (formula judged); distinct = distinct (input, budget)", caps, thrs)
+	res.Rule = fmt.Sprintf("every member of capacity%v x threshold%%%v x min%%{nil,0,25} x LS pod usage x LSR pod usage x unlabelled pod usage x BE pod usage x LS host-app usage x BE host-app usage x system usage (incl. negative and > capacity) x kubelet reservation x annotation reservation (resources.cpu / reservedCPUs) x host app without metric{n,y} x BE host app without cgroupPath usage x BE host app with base{none,CgroupRoot,KubepodsBurstable (+Kubepods thorough)} (usage alphabets in the evidence bounds); every case is non-trivial (formula judged); distinct = distinct (input, budget)", caps, thrs)
 	res.Bounds = map[string]any{"cases": rx.Size(), "ls_pod_usage_micro": lsV, "lsr_pod_usage_micro": lsrV, "hostapp_usage_micro": hlsV, "system_usage_micro": sysV, "kubelet_reserved_micro": kubV,
 		"note": "-7 stands for capacity+4 CPUs"}
 	res.Assumptions = []string{
 		"rounding band: each of the three float->milli truncations (non-BE pods, non-BE host apps, system) loses < 1 milli, so 0 <= code - exact <= 3 milli; the monotonicity clause uses the same 3 milli tolerance only when a non-dyadic usage value is involved (float summation follows Go map order)",
-		"a pod is BE when it is labelled koordinator.sh/qosClass=BE or is kube-BestEffort; a host application is BE when its QoS is BE and it runs under the kube besteffort cgroup; host applications without a metric are part of the system usage",
+		"a pod is BE when it is labelled koordinator.sh/qosClass=BE or is kube-BestEffort; host applications without a metric are part of the system usage",
+		"a host application is deducted from the BE budget unless it is best-effort AND throttled by the suppression, i.e. runs inside the kube besteffort hierarchy; decided from the NodeSLO spec alone: qos == BE and cgroupPath present and cgroupPath.base == KubepodsBesteffort. A BE application without cgroupPath runs in koordlet's default host directory under the cgroup root, one with base CgroupRoot/Kubepods/KubepodsBurstable runs outside besteffort: both are deducted",
 		"system usage = node usage - all pod usage - all host-app usage, not below 0; node reservation = max(capacity - allocatable, reservation annotation)",
 		"capacity is a whole number of CPUs; usages are multiples of 1 micro-CPU",
 	}
